@@ -11,7 +11,12 @@
        `d_plus  = max (0, max_{x ∈ data1 ∪ data2} (F1 x − F2 x))`,
        `d_minus = max (0, max_{x ∈ data1 ∪ data2} (F2 x − F1 x))`,
        `max d_plus d_minus = max_{x ∈ data1 ∪ data2} |F1 x − F2 x| = sup_{x ∈ ℝ} |F1 x − F2 x|`.
+       `max d_plus d_minus = 0 ⇔ F1 = F2` (`ks2_twosided_eq_zero_iff`, `ks2_stats_zero_of_ecdf_eq`).
   §4 (ℝ) range of the one-sample statistics, invariance of the statistics under permutations.
+  §5 (IEEE `Float`, evaluated in the kernel) since commit 5af6953 the empirical cdfs are the quotients
+     `i / n1`, `j / n2` of the counts (no running sums of `1/n`): samples with identical empirical cdfs
+     and different sizes — `[0.0]` vs `[0.0; 6]` and the other replayed pairs — have statistic exactly
+     `0.0`, and `TwoSidedAsymptotic` returns `Ok((0.0, 1.0))`.
 -/
 import Statrs.Lemmas.RankKS
 import Statrs.Props.C18.NaNPolicyFloat
@@ -758,6 +763,45 @@ theorem ks2_statistic_range (d1 d2 : List ℝ) (m : KSTwoSampleAlternativeMethod
   · rw [h]; exact ⟨b1, b2⟩
   · rw [h]; simp only [rfun_fmax]; exact ⟨le_trans a1 (le_max_left _ _), max_le a2 b2⟩
 
+omit [SF ℝ] in
+/-- IDENTICAL EMPIRICAL CDFS (the case commit 5af6953 is about): if `F1 = F2` at every pooled sample
+    point then `d_plus = d_minus = 0` EXACTLY, whatever the two sample sizes are -/
+theorem ks2_stats_zero_of_ecdf_eq (d1 d2 : List ℝ)
+    (h : ∀ x, (x ∈ d1 ∨ x ∈ d2) → ecdf d1 x = ecdf d2 x) :
+    ks_twosample.stats d1 d2 = (0, 0) := by
+  rw [stats_eq]
+  have key : ∀ g : ℝ → ℝ, (∀ x ∈ pooled d1 d2, g x = 0) →
+      (pooled d1 d2).foldl (fun acc x => max acc (g x)) 0 = 0 := by
+    intro g hg
+    rcases (foldl_max_spec g (pooled d1 d2) 0).2.2 with h0 | ⟨x, hx, hx'⟩
+    · exact h0
+    · rw [hx', hg x hx]
+  rw [key (fun x => ecdf d1 x - ecdf d2 x)
+      (fun x hx => by simp only [h x ((mem_pooled d1 d2 x).1 hx), sub_self]),
+    key (fun x => ecdf d2 x - ecdf d1 x)
+      (fun x hx => by simp only [h x ((mem_pooled d1 d2 x).1 hx), sub_self])]
+
+/-- the two-sided statistic vanishes EXACTLY when the two empirical distribution functions coincide
+    (on all of ℝ; equivalently at the pooled sample points) — all samples, all sizes -/
+theorem ks2_twosided_eq_zero_iff (d1 d2 : List ℝ) :
+    RFun.fmax (ks_twosample.stats d1 d2).1 (ks_twosample.stats d1 d2).2 = 0
+      ↔ ∀ x : ℝ, ecdf d1 x = ecdf d2 x := by
+  constructor
+  · intro h x
+    have hb := ks2_twosided_bound_real d1 d2 x
+    rw [h] at hb
+    exact sub_eq_zero.1 (abs_eq_zero.1 (le_antisymm hb (abs_nonneg _)))
+  · intro h
+    rw [ks2_stats_zero_of_ecdf_eq d1 d2 (fun x _ => h x)]
+    simp only [rfun_fmax, max_self]
+
+/-- non-vacuity: the samples `[0]` and `[0; 6]` (the f64 witness of 5af6953) have the same empirical cdf,
+    so over ℝ the statistics are `(0, 0)` -/
+example : ks_twosample.stats [(0 : ℝ)] [0, 0, 0, 0, 0, 0] = (0, 0) :=
+  ks2_stats_zero_of_ecdf_eq _ _ (fun x _ => by
+    simp only [ecdf, List.countP_cons, List.countP_nil, List.length_cons, List.length_nil]
+    split_ifs <;> norm_num)
+
 /-! ## §4 one-sample statistics; permutation invariance -/
 
 /-- RANGE of the one-sample statistics for a `cdf` with values in `[0, 1]` (all data; on empty data
@@ -945,5 +989,60 @@ example : IsGreatest ((fun x => |ecdf [(1 : ℝ), 3] x - ecdf [2] x|) '' {x | x 
   ks2_twosided_isGreatest _ _ (Or.inl (by simp))
 
 end real
+
+/-! # §5 IEEE `Float`: the empirical cdfs as quotients `i / n1`, `j / n2` (commit 5af6953)
+
+  Before 5af6953 the merge loop accumulated `f1 += 1.0 / n1`, `f2 += 1.0 / n2`; six additions of
+  `1.0 / 6.0` give `0.9999999999999999`, so samples with IDENTICAL empirical cdfs but different
+  sizes had the statistic `1.1e-16` instead of `0`, and `TwoSidedAsymptotic` then ran the
+  Kolmogorov series at `x ≈ 1e-16` (see `Props/C12/TerminationKS.lean`).  Now `f1 = i as f64 / n1`:
+  equal fractions round to the same double.  Evaluated in the kernel on Lean's `Float.Model`
+  (bit-compatible with `f64`). -/
+
+section float
+
+/-- full(Float): what the fix removed — the running sum of six `1.0 / 6.0` is not `1.0`, the quotient of the
+    count is -/
+theorem float_running_sum_residue :
+    (((((((0.0 : Float) + 1.0 / 6.0) + 1.0 / 6.0) + 1.0 / 6.0) + 1.0 / 6.0) + 1.0 / 6.0) + 1.0 / 6.0 ≠ 1.0) ∧
+    (RFun.ofInt 6 : Float) / (RFun.ofInt 6 : Float) = 1.0 ∧
+    (RFun.ofInt 1 : Float) / (RFun.ofInt 1 : Float) = 1.0 := by
+  decide +kernel
+
+/-- full(Float): the witness of 5af6953 — `[0.0]` against `[0.0; 6]` in IEEE double arithmetic: both statistics are
+    exactly `0.0` (they were `(1.1e-16, 0.0)`) -/
+theorem ks2_identical_ecdf_float :
+    ks_twosample.stats ([0.0] : List Float) [0.0, 0.0, 0.0, 0.0, 0.0, 0.0] = ((0.0 : Float), (0.0 : Float)) := by
+  set_option maxRecDepth 100000 in decide
+
+/-- full(Float): the other replayed pairs with identical empirical cdfs and different sizes — `[1,2,3]` / `[1,1,2,2,3,3]`,
+    `[1,2]` / `[1,1,1,2,2,2]`, `[0.5; 10]` / `[0.5; 3]`: statistics exactly `(0.0, 0.0)` -/
+theorem ks2_identical_ecdf_float_more :
+    ks_twosample.stats ([1.0, 2.0, 3.0] : List Float) [1.0, 1.0, 2.0, 2.0, 3.0, 3.0] = ((0.0 : Float), (0.0 : Float)) ∧
+    ks_twosample.stats ([1.0, 2.0] : List Float) [1.0, 1.0, 1.0, 2.0, 2.0, 2.0] = ((0.0 : Float), (0.0 : Float)) ∧
+    ks_twosample.stats (List.replicate 10 (0.5 : Float)) (List.replicate 3 (0.5 : Float))
+      = ((0.0 : Float), (0.0 : Float)) := by
+  set_option maxRecDepth 100000 in decide
+
+/-- full(Float): hence `ks_twosample([0.0], [0.0; 6], TwoSidedAsymptotic, policy)` returns `Ok((0.0, 1.0))` in IEEE double
+    arithmetic: the statistic is `0.0`, the `x == 0.0` guard of the Kolmogorov function fires and the series loop is
+    never entered (before the fix this call did not return) -/
+theorem ks2_identical_ecdf_asymptotic_float (pol : NaNPolicy) :
+    ks_twosample ([0.0] : List Float) [0.0, 0.0, 0.0, 0.0, 0.0, 0.0]
+        KSTwoSampleAlternativeMethod.TwoSidedAsymptotic pol = .ok ((0.0 : Float), (1.0 : Float)) := by
+  rw [ks2_asymptotic _ _ pol (by decide) (by decide) (by simp) (by simp), ks2_identical_ecdf_float]
+  have hs : RFun.fmax (0.0 : Float) (0.0 : Float) = (0.0 : Float) := by decide
+  simp only [hs]
+  have hp : T.ks_test.onesample_kolmogorov_twosided_pvalue (0.0 : Float)
+      (((RFun.ofInt (Max.max (listLen ([0.0] : List Float)) (listLen ([0.0, 0.0, 0.0, 0.0, 0.0, 0.0] : List Float))) : Float)
+          * (RFun.ofInt (Min.min (listLen ([0.0] : List Float)) (listLen ([0.0, 0.0, 0.0, 0.0, 0.0, 0.0] : List Float))) : Float))
+        / ((RFun.ofInt (Max.max (listLen ([0.0] : List Float)) (listLen ([0.0, 0.0, 0.0, 0.0, 0.0, 0.0] : List Float))) : Float)
+          + (RFun.ofInt (Min.min (listLen ([0.0] : List Float)) (listLen ([0.0, 0.0, 0.0, 0.0, 0.0, 0.0] : List Float))) : Float)))
+      = (1.0 : Float) := by
+    -- `+kernel`: the guard multiplies by `sqrt(6/7)`; the model's `sqrt` is only unfolded by the kernel
+    decide +kernel
+  rw [hp]
+
+end float
 
 end Statrs.Props.C17
